@@ -376,6 +376,33 @@ fn explore_value<T: Fl>(g: &Graph<T>, cfg: &Cfg, a: usize, v: [T; 3], c: &mut Co
     }
 }
 
+/// Collection forms of the unclamped conversion (`Vec<_>` and `Box<[_]>`): element for element the same
+/// colour as the single conversion, so every clause of the property carries over to them.
+fn check_buffers<T: Fl>(g: &Graph<T>, a: usize, b: usize, chunk: &[[T; 3]], c: &mut Collector, cnt: &mut [u64; 4]) {
+    let (Some(unc), Some(buf)) = (g.unc[a][b], g.buf[a][b]) else { return };
+    let Ok(outs) = pv::catch(|| buf(chunk)) else { return };
+    for (k, name) in [(2usize, "Vec::from_color_unclamped"), (3, "Box<[_]>::from_color_unclamped")] {
+        cnt[1] += chunk.len() as u64;
+        let out = &outs[k];
+        let sig = format!("C01/buffer-form/{}/{}/{}->{}/{}", g.name, T::NAME, g.nodes[a].name, g.nodes[b].name, if k == 2 { "vec" } else { "box" });
+        let case = |v: &[T; 3], obs: Value, exp: Value| json!({"sub": "buffer-form", "group": g.name, "float": T::NAME, "path": [g.nodes[a].name, g.nodes[b].name], "what": name, "input": hex(v), "value": to64(*v), "observed": obs, "expected": exp});
+        if out.len() != chunk.len() {
+            c.violation(&sig, 1.0, || case(&chunk[0], json!({"len": out.len()}), json!({"len": chunk.len()})));
+            continue;
+        }
+        for (i, v) in chunk.iter().enumerate() {
+            let Ok(u) = call3(unc, *v) else { continue };
+            if !u.iter().all(|x| x.finite()) {
+                continue;
+            }
+            cnt[2] += 1;
+            if bits3(out[i]) != bits3(u) {
+                c.violation(&sig, 1.0, || case(v, json!(to64(out[i])), json!(to64(u))));
+            }
+        }
+    }
+}
+
 fn run_graph<T: Fl>(ctx: &Ctx, g: &Graph<T>, cfg: &Cfg, total: &mut Collector) {
     let sub = format!("graph/{}/{}", g.name, T::NAME);
     if !ctx.wants(&sub) {
@@ -403,6 +430,11 @@ fn run_graph<T: Fl>(ctx: &Ctx, g: &Graph<T>, cfg: &Cfg, total: &mut Collector) {
             explore_value(g, cfg, a, v, c, &mut cnt);
             c.sample(pv::splitmix((ci as u64) << 20 | i as u64), || json!({"group": g.name, "float": T::NAME, "node": g.nodes[a].name, "value": to64(v)}));
         }
+        if cfg.alpha {
+            for b in 0..n {
+                check_buffers(g, a, b, &vals_ref[a][lo..hi], c, &mut cnt);
+            }
+        }
         c.add(&sub, cnt[0], cnt[1], cnt[2], cnt[0]);
     });
     total.merge(cc);
@@ -416,7 +448,7 @@ fn run_graph<T: Fl>(ctx: &Ctx, g: &Graph<T>, cfg: &Cfg, total: &mut Collector) {
             if cfg.dense { "dense" } else { "coarse" },
             cfg.grid,
             if cfg.path3 { ", all simple paths of length 3" } else { "" },
-            if cfg.alpha { ", alpha forms of every edge" } else { "" }
+            if cfg.alpha { ", alpha forms and Vec / Box<[_]> forms of every edge" } else { "" }
         ),
     );
     total.note(&format!("adjacency/{}/{}", g.name, T::NAME), json!(g.adjacency_text().lines().collect::<Vec<_>>()));
@@ -499,6 +531,9 @@ fn replay(c: &mut Collector, rep: &Value) {
         let mut cnt = [0u64; 4];
         let mut all = Collector::new();
         explore_value(g, cfg, a, v, &mut all, &mut cnt);
+        if let Some(b) = path.get(1).and_then(|p| g.index(p)) {
+            check_buffers(g, a, b, &[v], &mut all, &mut cnt);
+        }
         // keep only violations that concern the replayed pair
         let b = path.last().map(|s| s.as_str()).unwrap_or("");
         let b = if path.len() >= 3 && path[0] == *path.last().unwrap() { path[1].as_str() } else { b };
